@@ -241,7 +241,7 @@ Proof.
 Qed.
 
 Lemma noise_len_ok_128 (msg : bytes) : length msg = 128%nat -> noise_len_ok (length msg) = true.
-Proof. intros ->. reflexivity. Qed.
+Proof. intros ->. apply noise_len_ok_iff. split; [apply Nat.leb_le|apply N.leb_le]; reflexivity. Qed.
 
 (* file level, EVERY script: the recipient key pair in use does not open the static-key field *)
 Theorem key_decrypt_wrong_recipient r rpk s msg rest res s' :
